@@ -329,6 +329,7 @@ class Gen:
     def __init__(self, rng, feats=None, split_safe=True):
         self.rng = rng
         self.split_safe = split_safe      # keep splittable string literals out of operand positions that bind tighter than +
+        self.simple_index = True          # index operands without relational/logical operators (tree without fixes/C07-8)
         self.n = 0
         self.feats = feats if feats is not None else {}
 
@@ -422,7 +423,8 @@ class Gen:
                     return (e[0], simple(e[1]))
                 return e
             def ix():
-                return simple(self.expr(ids, 1, aggr_ids))
+                e = self.expr(ids, r.choice([1, 1, 2]), aggr_ids)
+                return simple(e) if self.simple_index else e
             if r.random() < 0.6:
                 self.hit("op:index"); return ("idx", ("id", r.choice(aggr_ids)), ix())
             self.hit("op:subcomponent")
